@@ -32,7 +32,10 @@ func init() {
 			"length and compared by behaviour probes and by the load form of the copy. A2: every subset of the session menu up to the tier's " +
 			"size, each in its own process: evaluate, probe, snapshot; second process: (load snapshot), probe, snapshot again; the load must " +
 			"succeed, the probes must agree, the two snapshot texts must be equal apart from the header line. A case is non-trivial when " +
-			"the pretty printer produced at least two different layouts over the margins (A1) or the session defines at least one item (A2)",
+			"the pretty printer produced at least two different layouts over the margins (A1) or the session defines at least one item (A2). " +
+			"S9: a snapshot that (load) rejects is loaded again without the forms of slip's own swank package, then form by form; a snapshot with a " +
+			"derived flavor before its base is repaired before loading; (defpackage name) load forms are retried with the names quoted; every " +
+			"verdict obtained that way says so (mode=..., degraded=...)",
 		Assumptions: []string{
 			"identity-compared kinds (lambda, function, package, flavor, class, generic) cannot be Equal to a rebuilt object; they are compared by behaviour on a fixed probe table and by the load form of the rebuilt object",
 			"documentation strings are compared modulo white space (the pretty printer re-flows documentation on purpose)",
@@ -54,7 +57,7 @@ var required = []string{
 	"lf-kind:number", "lf-kind:string", "lf-kind:symbol", "lf-kind:character", "lf-kind:list", "lf-kind:list-dotted",
 	"lf-kind:vector", "lf-kind:array", "lf-kind:hash-table", "lf-kind:lambda", "lf-kind:defun", "lf-kind:defmacro", "lf-kind:call",
 	"lf-kind:package", "lf-kind:flavor", "lf-kind:flavor-instance", "lf-kind:clos-instance", "lf-kind:class", "lf-kind:generic",
-	"snap-session", "snap-stage1-ok", "snap-second-snapshot", "snap-probes-compared", "snap-forms-loaded",
+	"snap-session", "snap-stage1-ok", "snap-second-snapshot", "snap-probes-compared", "snap-forms-loaded", "snap-definitions-looked-for",
 }
 
 func enumerate(tier string, emit func(string)) {
@@ -72,8 +75,12 @@ func bound(tier string) string {
 	k := snapMaxSize(tier)
 	cnt := 0
 	enumerateSnap(tier, func(string) { cnt++ })
-	return fmt.Sprintf("A1: %d objects/definition worlds x all %d right margins %d..%d (every distinct layout evaluated); "+
-		"A2: all %d sessions = subsets of size <= %d of the %d item menu (+ the full menu), each = 3 fresh processes",
+	return fmt.Sprintf("A1: %d objects/definition worlds (numbers, strings, symbols, characters, proper and dotted lists, vectors, arrays, "+
+		"hash tables, lambdas, defuns, macros, compiled calls, packages, flavors+methods, flavor and CLOS instances, classes, generic functions) "+
+		"x all %d right margins %d..%d (every distinct layout read back and evaluated); "+
+		"A2: all %d sessions = every subset of size <= %d of the %d item menu + the full menu + 2 dedicated sessions (forward reference, "+
+		"flavor forest), each in 3-4 fresh processes, 24 snapshots of the unchanged session compared with each other, (load) of the whole "+
+		"file, (load) without the forms of slip's own swank package, form by form load when both abort",
 		n, maxMargin-minMargin+1, minMargin, maxMargin, cnt, k, len(menu))
 }
 
